@@ -2,11 +2,13 @@
 
 TLC: Statements.tla - the lazily committing statement-stream machine against the declarative mirror (NoLossNoDup,
 DocAttached, HeaderMirror, FlagsMirror, NeutralInsert, FinalNewline) for every line sequence over the alphabet.
+Binding B: the parser / builder steps recorded while the repository's own tests read their definitions are validated
+by TLC against the step-level machine (TraceStatements.tla).
 Binding A: every TLC state is rendered as DSDL text in several formatting variants, read with read_namespace,
 projected and compared with `out`; accepted models are rendered back to canonical DSDL and re-read.
 """
 from __future__ import annotations
-from .. import stmt_replay, tlaval
+from .. import stmt_replay, tlaval, stmttrace
 
 def run(ctx):
     ctx.rule = ("TLC enumerates every sequence of abstract lines (kind x comment flag) up to MaxLines over the mirror, scope (constants named alike in the request and response part, read by later constants and @print; up to 7 lines) and "
@@ -31,6 +33,8 @@ def run(ctx):
             for r in results:
                 if r and r.get("nt") and r.get("ok") and "bad" not in r:
                     break
+    # Binding B over executions not generated from the specification: the repository's own tests under the hooks
+    stmttrace.validate_repo_suite(ctx)
     ctx.sample({"lines": [{"k": "field", "c": True}, {"k": "empty", "c": True}, {"k": "sealed", "c": False}],
                 "rendered": stmt_replay.render([{"k": "field", "c": True}, {"k": "empty", "c": True},
                                                 {"k": "sealed", "c": False}], ctx.seed, 1)})
